@@ -9,7 +9,12 @@ Each case: generated source tree x prior destination state x flag set  ->
 import os, shutil, json, stat, time
 from sylib import *
 
-NAMES = ["a", "b", "c.txt", "d.bin", "d.dat", "e f", "ü.txt", "x.sy.tmp", ".hidden", "k.log", "data", "n1", "n2"]
+NAMES = ["a", "b", "c.txt", "d.bin", "d.dat", "e f", "ü.txt", "x.sy.tmp", ".hidden", "k.log", "data", "n1", "n2", "caf\udce9.txt", "README.md"]
+# ("caf\udce9.txt" is the byte string caf\xe9.txt: a file name that is not valid UTF-8)
+
+def lossy(rel):
+    """how a path appears in sy's JSON output (to_string_lossy)"""
+    return rel.encode("utf-8", "surrogateescape").decode("utf-8", "replace")
 DIRS = ["sub", "dir", "deep", "d.bin.d", "s p", "logs"]
 OFFS = [0, 0, 0, 900_000_000, -900_000_000, 1_000_000_000, -1_000_000_000, 1_900_000_000, -1_900_000_000,
         2_000_000_000, -2_000_000_000, 2_100_000_000, -2_100_000_000, 100 * 10**9, -100 * 10**9]
@@ -109,9 +114,15 @@ def gen_dst(rng, src, opts):
         else: dst[rel] = F(n["data"], n["mtime"] + off)
     # extras
     dirs = [""] + [r for r, n in dst.items() if n["k"] == "d"]
+    src_files = [r for r in src if src[r]["k"] != "d"]
     for _ in range(rng.below(4) if opts.get("extras", True) else 0):
         parent = rng.pick(dirs); name = rng.pick(["extra", "old.txt", "zz", "stale", "q.sy.tmp", "keep.log"])
         rel = (parent + "/" if parent else "") + name
+        if src_files and rng.chance(1, 4):
+            # a stale entry whose name differs from a source name only in letter case (or by one character)
+            base = rng.pick(src_files); d_, b_ = os.path.split(base)
+            v = rng.pick([b_.swapcase(), b_.upper(), b_.lower(), b_ + "~"])
+            if v != b_ and (not d_ or dst.get(d_, {}).get("k") == "d"): rel = (d_ + "/" if d_ else "") + v
         if rel in dst or rel in src: continue
         k = rng.below(4)
         if k == 0:
@@ -300,8 +311,13 @@ def one_case(rep, drv, contents, focus, ci, seed, case_dir, src_root, dst_root, 
     ev, bad = events_of(out)
     summ = next((e for e in ev if e.get("type") == "summary"), None)
     rel_of = lambda p: os.path.relpath(p, dst_root)
-    real_events = sorted((e["type"][0], rel_of(e["path"])) for e in ev if e.get("type") in ("create", "update", "skip", "delete"))
-    real_errors = sorted(rel_of(e["path"]) for e in ev if e.get("type") == "error")
+    # JSON carries paths lossily: map them back to the real names where that is unambiguous
+    back = {}
+    for r_ in set(pre_src) | set(pre_dst) | set(post_dst):
+        back.setdefault(lossy(r_), set()).add(r_)
+    unl = lambda r_: next(iter(back[r_])) if r_ in back and len(back[r_]) == 1 else r_
+    real_events = sorted((e["type"][0], unl(rel_of(e["path"]))) for e in ev if e.get("type") in ("create", "update", "skip", "delete"))
+    real_errors = sorted(unl(rel_of(e["path"])) for e in ev if e.get("type") == "error")
     nontrivial = any(a != "s" for a, _ in model["events"]) or any(a != "s" for a, _ in real_events)
     rep.case((tuple(flags), tuple(sorted((r, repr(n)) for r, n in tree_fingerprint(pre_src).items())), tuple(sorted((r, repr(n)) for r, n in tree_fingerprint(pre_dst).items()))), nontrivial)
     for fl in flags:
@@ -511,7 +527,7 @@ def selected_entries(order, pre_src, exb, cfg):
         if exb.get(rel) or any(exb.get(a) for a in anc): continue
         n = pre_src[rel]
         if n["k"] != "d":
-            size = n["size"] if n["k"] == "f" else len(n["text"].encode())
+            size = n["size"] if n["k"] == "f" else len(os.fsencode(n["text"]))
             if cfg.get("min", "-") != "-" and size < cfg["min"]: continue
             if cfg.get("max", "-") != "-" and size > cfg["max"]: continue
         sel.append(rel)
@@ -649,7 +665,8 @@ def run_bloom(tier="quick", seed=1, work=None, replay=None, **kw):
         stale = set()
         for _ in range(150):
             base = rng.pick(names)
-            rel = base + rng.pick(["x", "0", ".old", "~"])          # near-misses of real names
+            d_, b_ = os.path.split(base)
+            rel = rng.pick([base + "x", base + "0", base + ".old", base + "~", os.path.join(d_, b_.upper()), os.path.join(d_, b_.swapcase())])   # near-misses of real names, incl. case-only variants
             open(os.path.join(dst_root, rel), "wb").write(b"stale"); stale.add(rel)
         for k in range(5):
             os.makedirs(os.path.join(dst_root, f"stale{k}/sub")); stale |= {f"stale{k}", f"stale{k}/sub"}
